@@ -25,7 +25,11 @@ def posixHost : Host State where
   stat s p := s.stat p
   getfl s fd := match s.fcntlGetfl fd with | .ok (_, fl) => .ok fl | .err e => .err e | .unmodelled => .unmodelled
   fsync s fd := (s, s.fsync fd)
-  pathCall s _ _ := (s, .unmodelled)
+  pathCall s name paths :=
+    match name, paths with
+    | "unlink", [p] => (match s.unlink p with | (s', .ok _) => (s', .ok 0) | (s', .err e) => (s', .err e) | (s', .unmodelled) => (s', .unmodelled))
+    | "rename", [a, b] => (match s.rename a b with | (s', .ok _) => (s', .ok 0) | (s', .err e) => (s', .err e) | (s', .unmodelled) => (s', .unmodelled))
+    | _, _ => (s, .unmodelled)
 
 def strBytes (s : String) : Bytes := s.toUTF8.toList
 
